@@ -140,8 +140,12 @@ def concretize(rec, seed=0):
                 lister.setdefault(c, s)
     casedir = {c: sdir(lister.get(c, 0)) for c in range(1, ncases + 1)}
 
+    # in a quarter of the inputs the case files have names with wildcard characters (k[1].case): a QUOTED name is
+    # taken literally, a glob pattern must escape the bracket
+    brackets = pick('brackets', [False, False, False, True])
+
     def casename(c):
-        return '%s%d.case' % (prefix, c)
+        return 'k[%d].case' % c if brackets else '%s%d.case' % (prefix, c)
 
     def suite_ref(s, ln, salt):
         rel = '' if s == 0 else '../'
@@ -171,17 +175,27 @@ def concretize(rec, seed=0):
         k, t = ln['k'], sorted(ln['t'])
         if k == 'plain':
             n = casename(t[0])
+            if brackets:
+                return pick(salt, ["'%s'" % n, '"%s"' % n])
             return pick(salt, [n, n, './' + n, "'%s'" % n, '"%s"' % n])
         if k == 'glob':
             if not t:
                 return pick(salt, ['%s[x].case' % prefix, 'nomatch-*.case'])
             digits = ''.join(map(str, t))
-            opts = ['%s[%s].case' % (prefix, digits), '*[%s].case' % digits, '%s[%s].c*' % (prefix, digits)]
+            if brackets:
+                opts = ['k[[][%s][]].case' % digits, '*[[][%s][]].case' % digits, 'k[[][%s]?.c*' % digits]
+            else:
+                opts = ['%s[%s].case' % (prefix, digits), '*[%s].case' % digits, '%s[%s].c*' % (prefix, digits)]
             if t == sorted(c for c in casedir if casedir[c] == sdir(s)):
-                opts += ['*.case', '*.case', '%s?.case' % prefix]     # every case file of the directory
+                opts += ['*.case', '*.case']     # every case file of the directory
+                if not brackets:
+                    opts += ['%s?.case' % prefix]
             return pick(salt, opts)
         if k == 'missing':
-            return pick(salt, ['nonexistent.case', 'a-directory', 'nonexistent-dir/%s' % casename(1)])
+            # (a quoted name is a name, whatever characters it has: it does not exist)
+            return pick(salt, ['nonexistent.case', 'a-directory',
+                               ("'nonexistent-dir/%s'" if brackets else 'nonexistent-dir/%s') % casename(1),
+                               "'gone[1].case'", '"*.nothing"'])
         raise ValueError(k)
 
     files = []   # (relative path, text) in creation order
@@ -246,7 +260,7 @@ def concretize(rec, seed=0):
                 links=[['l%d' % j, 's%d' % j] for j in range(1, nsub + 1)], chmod0=chmod0, argv=argv, globs=globs,
                 stub=any(rec['vd'][c - 1] == 'INTERNAL_ERROR' for c in range(1, ncases + 1)),
                 unprivileged=bool(chmod0),
-                meta=dict(rootname=rootname, prefix=prefix, casedir={str(c): d for c, d in casedir.items()},
+                meta=dict(rootname=rootname, prefix=prefix, brackets=brackets, casedir={str(c): d for c, d in casedir.items()},
                           listed=sorted(listed), cwd=cwd))
 
 
@@ -342,7 +356,8 @@ def suite_id(path, meta, home):
 def case_id(path, meta, home):
     p = _rel(path, meta, home)
     d, b = os.path.split(p)
-    m = re.match('^' + re.escape(meta['prefix']) + r'(\d)\.case$', b)
+    m = re.match(r'^k\[(\d)\]\.case$', b) if meta.get('brackets') else \
+        re.match('^' + re.escape(meta['prefix']) + r'(\d)\.case$', b)
     if m and re.sub(r'^l(\d)$', r's\1', d) == meta['casedir'].get(m.group(1)):
         return int(m.group(1))
     return 'OTHER:' + p
